@@ -1,27 +1,27 @@
 --------------------------- MODULE StoreCasesMC ---------------------------
 (* C29: case enumeration (spec -> code) for the geometry of da.store and for the npy stack.
 
-   Fam = "geom": one source of every shape in Shapes, every chunking (plus, with ZeroChunks, the
+   fam = "geom": one source of every shape in `shapes`, every chunking (plus, with `zero`, the
      chunkings of 1-d sources that carry one zero-width chunk), stored into a target that is
      larger by `start` cells in front and `pad` cells behind on every axis, through the region
-     slice(start, ., step) on every axis - all combinations of Starts x Steps x Pads per axis.
+     slice(start, ., step) on every axis - all combinations of starts x steps x pads per axis.
      Exported: the call, the expected content of the target, the block writes.
-   Fam = "npy":  every shape in Shapes, every chunking, every axis.
+   fam = "npy":  every shape in `shapes`, every chunking, every axis.
 
    Init only picks the case; the expected result is computed in one Next step. *)
 EXTENDS Store, Json
 
-CONSTANTS Fam, Shapes, Starts, Steps, Pads, ZeroChunks
+CONSTANTS Plans    \* a set of records [fam, shapes, starts, steps, pads, zero]: several enumerations in one run
 
 VARIABLES cs, out
 vars == <<cs, out>>
 
-RegionChoice == [start : Starts, step : Steps, pad : Pads]
-RECURSIVE Regions(_)
-Regions(k) == IF k = 0 THEN {<<>>} ELSE { <<x>> \o r : x \in RegionChoice, r \in Regions(k - 1) }
+RegionChoice(pl) == [start : pl.starts, step : pl.steps, pad : pl.pads]
+RECURSIVE Regions(_, _)
+Regions(pl, k) == IF k = 0 THEN {<<>>} ELSE { <<x>> \o r : x \in RegionChoice(pl), r \in Regions(pl, k - 1) }
 
-ChunkChoices(shape) ==
-  NDChunkings(shape) \cup (IF ZeroChunks /\ Len(shape) = 1 THEN { <<c>> : c \in WithOneZero(shape[1]) } ELSE {})
+ChunkChoices(pl, shape) ==
+  NDChunkings(shape) \cup (IF pl.zero /\ Len(shape) = 1 THEN { <<c>> : c \in WithOneZero(shape[1]) } ELSE {})
 
 Max1(v) == IF v < 1 THEN 1 ELSE v
 CallOf(shape, chunks, rg) ==
@@ -31,11 +31,12 @@ CallOf(shape, chunks, rg) ==
 
 Init ==
   /\ out = ""
-  /\ \/ /\ Fam = "geom"
-        /\ \E shape \in Shapes : \E chunks \in ChunkChoices(shape) : \E rg \in Regions(Len(shape)) :
+  /\ \E pl \in Plans :
+     \/ /\ pl.fam = "geom"
+        /\ \E shape \in pl.shapes : \E chunks \in ChunkChoices(pl, shape) : \E rg \in Regions(pl, Len(shape)) :
               cs = [fam |-> "geom", call |-> CallOf(shape, chunks, rg)]
-     \/ /\ Fam = "npy"
-        /\ \E shape \in Shapes : \E chunks \in NDChunkings(shape) : \E ax \in 1..Len(shape) :
+     \/ /\ pl.fam = "npy"
+        /\ \E shape \in pl.shapes : \E chunks \in NDChunkings(shape) : \E ax \in 1..Len(shape) :
               cs = [fam |-> "npy", shape |-> shape, chunks |-> chunks, axis |-> ax]
 
 Expect ==
@@ -54,7 +55,7 @@ GeomOK == cs.fam = "geom" =>
      IN { ex[p] : p \in DOMAIN ex } \ {0} = 1..Size(cs.call.src[1].shape)
 \* the contract accepts the array itself cut like the input, and rejects a changed axis chunking
 NpyOK == cs.fam = "npy" =>
-  LET ident == [shape |-> cs.shape, chunks |-> cs.chunks, cells |-> [j \in 1..Size(cs.shape) |-> j]]
+  LET ident == [shape |-> cs.shape, chunks |-> cs.chunks, lchunks |-> cs.chunks, cells |-> [j \in 1..Size(cs.shape) |-> j]]
   IN /\ NpyRoundTripBad(cs.shape, cs.chunks, cs.axis, ident) = {}
      /\ Len(cs.chunks[cs.axis]) > 1 =>
            "AxisChunks" \in NpyRoundTripBad(cs.shape, cs.chunks, cs.axis,
